@@ -94,17 +94,21 @@ TF_MIN = {'1m': 1, '3m': 3, '5m': 5, '15m': 15, '30m': 30, '45m': 45, '1h': 60, 
 def aggregate(c1m: np.ndarray, tf: str) -> np.ndarray:
     """One row per started window of the timeframe, windows aligned to multiples of the timeframe length."""
     w = TF_MIN[tf] * MIN
-    if len(c1m) == 0:
+    n = len(c1m)
+    if n == 0:
         return np.zeros((0, 6))
-    rows = []
     keys = (c1m[:, 0] // w).astype(np.int64)
-    start = 0
-    for i in range(1, len(c1m) + 1):
-        if i == len(c1m) or keys[i] != keys[start]:
-            g = c1m[start:i]
-            rows.append([float(keys[start]) * w, g[0, 1], g[-1, 2], g[:, 3].max(), g[:, 4].min(), g[:, 5].sum()])
-            start = i
-    return np.array(rows)
+    starts = np.concatenate(([0], np.flatnonzero(np.diff(keys)) + 1))
+    ends = np.concatenate((starts[1:], [n]))
+    out = np.empty((len(starts), 6))
+    out[:, 0] = keys[starts].astype(float) * w
+    out[:, 1] = c1m[starts, 1]
+    out[:, 2] = c1m[ends - 1, 2]
+    out[:, 3] = np.maximum.reduceat(c1m[:, 3], starts)
+    out[:, 4] = np.minimum.reduceat(c1m[:, 4], starts)
+    # summed per window with the same routine jesse uses on a slice (pairwise np.sum), not reduceat
+    out[:, 5] = [c1m[a:b, 5].sum() for a, b in zip(starts, ends)]
+    return out
 
 
 def random_spec(rng: random.Random, n: int, family: str = None, start: float = None) -> dict:
